@@ -36,6 +36,7 @@ R.shape(
     _lines="int",
     _sections="list[ref SectionOutput]",
     _terminal="ref Terminal",
+    g_erased="str",
 )
 R.shape("InputStream", external=True)
 R.shape("Input", _stream="ref InputStream", _interactive="bool")
@@ -259,8 +260,10 @@ c = R.contract(
         # control-only path: may have nothing to erase, but never writes on a quiet output
         "implies(self._quiet, %s)" % UNCHANGED,
         "self._stream.g_count >= old(self._stream.g_count)",
+        # ghost: what was erased from the screen below this section (for the callers that print it again)
+        "[def] self.g_erased == result",
     ],
-    modifies=STREAM_GHOST,
+    modifies=STREAM_GHOST + ["self.g_erased"],
 )
 c.defaults = {"lines_to_clear_count": 0}
 R.loop(
@@ -292,8 +295,12 @@ c = R.contract(
         "self._stream.g_last == fmt_remove(self._formatter, string) + ('\\n' if new_line else ''))" % (GATE, ANSI),
         # C15: with ANSI support the text is recorded in the section (it is what later redraws re-print)
         "[C15] implies(%s and %s, len(self._content) >= old(len(self._content)) + 2)" % (GATE, ANSI),
+        # C11/C15: ... and what was erased below is printed again AS IT WAS: formatted, but not indented a second time by the
+        # indentation of the section that is writing (the recorded lines carry the indentation of their own section)
+        "[C11,C15] implies(%s and %s, self._stream.g_last == (fmt_format(self._formatter, self.g_erased) if self._format_output "
+        "else fmt_remove(self._formatter, self.g_erased)))" % (GATE, ANSI),
     ],
-    modifies=STREAM_GHOST + ["self._lines", "items(self._content)"],
+    modifies=STREAM_GHOST + ["self._lines", "items(self._content)", "self.g_erased"],
 )
 c.defaults = {"flags": None, "new_line": False, "with_indent": True}
 
@@ -306,7 +313,7 @@ c = R.contract(
              # C15: without ANSI support a clear emits nothing (no control codes) and forgets nothing
              "[C11,C15] implies(not %s, %s and self._lines == old(self._lines) and self._content is old(self._content) "
              "and seq(self._content) == old(seq(self._content)))" % (ANSI, UNCHANGED)],
-    modifies=STREAM_GHOST + ["self._lines", "self._content", "items(self._content)"],
+    modifies=STREAM_GHOST + ["self._lines", "self._content", "items(self._content)", "self.g_erased"],
 )
 c.defaults = {"lines": None}
 
@@ -321,7 +328,7 @@ R.contract(
         "[C11,C15] implies(not self._quiet and not %s and self._indent == 0, "
         "self._stream.g_last == fmt_remove(self._formatter, message) + '\\n')" % ANSI_LATE,
     ],
-    modifies=STREAM_GHOST + ["self._lines", "self._content", "items(self._content)"],
+    modifies=STREAM_GHOST + ["self._lines", "self._content", "items(self._content)", "self.g_erased"],
 )
 
 
@@ -405,7 +412,7 @@ c = R.contract(
         "[C11,C15] implies(%s and not %s and self._indent == 0, "
         "self._stream.g_last == fmt_remove(self._formatter, string) + '\\n')" % (GATE, ANSI),
     ],
-    modifies=STREAM_GHOST + ["self._lines", "items(self._content)"],
+    modifies=STREAM_GHOST + ["self._lines", "items(self._content)", "self.g_erased"],
 )
 c.defaults = {"flags": None}
 
